@@ -676,3 +676,80 @@ func GenHandoffScript(t *rapid.T, thorough bool) *Script {
 	s.Ops = ops
 	return s
 }
+
+func GenC17Script(t *rapid.T, thorough bool) *Script {
+	s := &Script{Prop: "C17", Profile: "binder-only", C17: &C17Script{}}
+	c := s.C17
+	c.MapSeed = rapid.Uint64Range(1, 1<<62).Draw(t, "mapseed")
+	s.MapSeed = c.MapSeed
+	groupNode := map[string]string{"ga": "n0", "gb": "n0", "gc": "n1", "gd": "n1"}
+	groupsOn := map[string][]string{"n0": {"ga", "gb"}, "n1": {"gc", "gd"}}
+	mkTarget := func(name string) C17Target {
+		node := pick(t, "tnode", "n0", "n1")
+		tg := C17Target{Pod: name, Node: node, Fraction: pick(t, "tfrac", "0.25", "0.3", "0.5")}
+		if chance(t, "tmulti", 30) {
+			tg.Multi = true
+			tg.Groups = append([]string(nil), groupsOn[node]...)
+		} else {
+			tg.Groups = []string{pick(t, "tgroup", groupsOn[node]...)}
+		}
+		return tg
+	}
+	_ = groupNode
+	ns := rapid.IntRange(0, 2).Draw(t, "nsharers")
+	for i := 0; i < ns; i++ {
+		sh := mkTarget(fmt.Sprintf("s%d", i))
+		sh.Fraction = "0.1"
+		c.Sharers = append(c.Sharers, sh)
+	}
+	nt := rapid.IntRange(1, 4).Draw(t, "ntargets")
+	var pods []string
+	for i := 0; i < nt; i++ {
+		tg := mkTarget(fmt.Sprintf("t%d", i))
+		c.Targets = append(c.Targets, tg)
+		pods = append(pods, tg.Pod)
+	}
+	var all []string
+	all = append(all, pods...)
+	for _, sh := range c.Sharers {
+		all = append(all, sh.Pod)
+	}
+	nsteps := rapid.IntRange(2, 8).Draw(t, "nsteps")
+	for i := 0; i < nsteps; i++ {
+		st := C17Step{}
+		switch pick(t, "stepkind", "reconcile", "reconcile", "reconcile", "complete", "delete", "delete_br", "restart", "agent") {
+		case "reconcile":
+			st.Kind = "reconcile"
+			k := rapid.IntRange(1, min(3, len(pods))).Draw(t, "nconc")
+			seen := map[string]bool{}
+			for j := 0; j < k; j++ {
+				p := pick(t, "rpod", pods...)
+				if !seen[p] {
+					seen[p] = true
+					st.Pods = append(st.Pods, p)
+				}
+			}
+			if chance(t, "crash", 25) {
+				st.Crash = map[string]int{st.Pods[0]: rapid.IntRange(1, 25).Draw(t, "crashk")}
+			} else if chance(t, "failk", 25) {
+				st.Fail = map[string]int{st.Pods[0]: rapid.IntRange(1, 25).Draw(t, "failk")}
+			}
+			nt := rapid.IntRange(0, 40).Draw(t, "tapelen")
+			for j := 0; j < nt; j++ {
+				st.Tape = append(st.Tape, rapid.IntRange(0, 3).Draw(t, "tape"))
+			}
+		case "complete":
+			st.Kind, st.Arg = "complete", pick(t, "cpod", all...)
+		case "delete":
+			st.Kind, st.Arg = "delete", pick(t, "dpod", all...)
+		case "delete_br":
+			st.Kind, st.Arg = "delete_br", pick(t, "dbr", pods...)
+		case "restart":
+			st.Kind = "restart"
+		case "agent":
+			st.Kind, st.Arg = "agent", pick(t, "agentmode", "fast", "late", "silent")
+		}
+		c.Steps = append(c.Steps, st)
+	}
+	return s
+}
